@@ -109,6 +109,10 @@ structure Feed where
   keysOnly : Bool
   dump : Bool
   pending : List FeedItem   -- delivered but not yet printed (oldest first)
+  ckPrefix : String := ""   -- CheckpointPrefix ("" = none)
+  lastCas : Nat := 0        -- highest CAS delivered in this run (or read from the checkpoint)
+  changed : Bool := false   -- lastCasChanged
+  stopped : Bool := false   -- its queue was closed (terminator, dump end, drop, shutdown)
   deriving Repr, Inhabited
 
 /-- Everything one program can observe. Collections are addressed by the protocol's labels. -/
